@@ -375,7 +375,7 @@ def run(check: core.Check) -> None:
     flat = core.emitted_json(results["catchflat"])
     block = core.emitted_json(results["catchblock"])
     check.cov["routes_cases"] = {"catch-flat": len(flat), "catch-block": len(block)}
-    lim = 2000 if quick else 200000
+    lim = 2000 if quick else 60000
     flat_s = flat if len(flat) <= lim else rnd.sample(flat, lim)
     block_s = block if len(block) <= lim else rnd.sample(block, lim)
     struct = core.emitted_json(results["struct"])
@@ -387,7 +387,7 @@ def run(check: core.Check) -> None:
     per_block = judge_ctor(check, block_s, "routes-catch-block/constructor-settings")
     selftest_trace(check, per_block)
     # structure x command line x configuration file, through main()
-    want = 250 if quick else 12000
+    want = 250 if quick else 4000
     sims = []
     for cfg, seed in (("SuppressionRoutes.sim.cfg", 17), ("SuppressionRoutes.simblock.cfg", 29)):
         sims += _simulate_routes(check, cfg, want, check.seed + seed)
